@@ -28,17 +28,19 @@ def run(ctx):
             raise ToolError(f"vacuity: switching {g} off no longer violates anything (finding F1 no longer reproduced in the model)")
     # 2. the code, concurrent: destroy / probe blocks under schedules that interleave the cache steps;
     #    every value readable through the returned state against revm State
-    names = ["c_destroy_probe", "c_destroy_probe_fallback"]
-    r, out, args = se.controlled(ctx, names, 400 if quick else 20000, groups=("SCHED", "CACHE"), tag="cache")
-    se.report(ctx, r, args, "C10", also=("C01",))
-    r2, out2, args2 = se.controlled(ctx, ["chain2", "rmw3", "dd3", "grow_shrink3", "t_nonce_gap_dup"], 60 if quick else 3000,
+    #    (the pre-fix race of finding F1 needs a fetch to straddle the commit of the destroying transaction: first hit
+    #     after ~600 PCT schedules with this seed, hence 2000 in the quick tier; 6000 runs take 45 s)
+    for nm, nq in (("c_destroy_probe", 2000), ("c_destroy_probe_fallback", 600)):
+        r, out, args = se.controlled(ctx, [nm], ctx.n(nq, 20000), groups=("SCHED", "CACHE"), tag="cache_" + nm)
+        se.report(ctx, r, args, "C10", also=("C01",))
+    r2, out2, args2 = se.controlled(ctx, ["chain2", "rmw3", "dd3", "grow_shrink3", "t_nonce_gap_dup"], ctx.n(60, 3000),
                                     groups=("SCHED", "CACHE"), tag="cache_plain")
     se.report(ctx, r2, args2, "C10")
     # 3. the code, sequential: the same history of real transactions (create, destroy, re-create,
     #    empty-touch, storage churn), increments, drains, merges and extractions applied to a
     #    ParallelState and to a revm State; results, transitions, readable values, bundles compared
     se.lifecycle(ctx, "C10", quick)
-    h = ctx.vh("statehist", {"max_runs": 1500 if quick else 60000, "seed": ctx.seed}, timeout=3000)
+    h = ctx.vh("statehist", {"max_runs": ctx.n(1500, 60000), "seed": ctx.seed}, timeout=3000)
     ctx.evaluations += h["runs"]
     ctx.distinct += h["distinct"]
     ctx.notes["history_step_kinds"] = h["step_kinds"]
